@@ -1364,6 +1364,18 @@ class SyncObj(object):
             self.__transport.dropNode(oldNode)
             return True
 
+    def __clusterBeforeChange(self, cluster, request):
+        requestNode = request[2] if len(request) >= 3 else self.__nodeClass(request[1])
+        if not isinstance(requestNode, Node):
+            requestNode = self.__nodeClass(requestNode)
+        if requestNode == self.__selfNode:
+            return cluster
+        if request[0] == 'add':
+            return cluster - {requestNode}
+        if request[0] == 'rem':
+            return cluster | {requestNode}
+        return cluster
+
     def __parseChangeClusterRequest(self, command):
         commandType = ord(command[:1])
         if commandType != _COMMAND_TYPE.MEMBERSHIP:
@@ -1419,6 +1431,12 @@ class SyncObj(object):
         else:
             data = None
         cluster = self.__otherNodes | {self.__selfNode}
+        # The snapshot describes position raftLastApplied. Membership changes of later entries are
+        # already in force here (they take effect when appended) but are not part of it.
+        for entry in reversed(self.__getEntries(self.__raftLastApplied + 1)):
+            request = self.__parseChangeClusterRequest(entry[0])
+            if request is not None:
+                cluster = self.__clusterBeforeChange(cluster, request)
         self.__serializer.serialize((data, lastAppliedEntries[1], lastAppliedEntries[0], cluster), lastAppliedEntries[0][1])
 
     def __loadDumpFile(self, clearJournal):
